@@ -3,7 +3,7 @@ import json
 import os
 import vlib
 
-ACTIONS = ["ClientRequest", "AdvFlipBody", "AdvFlipMac", "AdvTruncMac", "AdvRenameKey",
+ACTIONS = ["ClientRequest", "AdvFlipBody", "AdvFlipMac", "AdvTruncMac", "AdvExtendMac", "AdvRenameKey",
            "AdvRecaseKey", "AdvSwapAlg", "AdvChangeOrigId", "AdvRewriteId", "AdvShiftTime",
            "AdvStripTsig", "AdvMoveTsig", "AdvDupTsig", "AdvSetErr", "AdvSetOther",
            "AdvForgeErr", "AdvInsertUnsigned", "ServerRequest", "ServerErrorResponse",
@@ -20,7 +20,7 @@ DEVS = {
 
 META = {
     "category": "model_checking",
-    "text": "TLC explores every TSIG exchange of the transcribed ClientTransaction/ClientSequence/ServerTransaction/ServerSequence/ServerError machines against an on-path adversary (16 kinds of tampering at every message), skewed clocks, truncation policies and an independent RFC 8945 responder that leaves answers unsigned (including runs of 99 and 100), with HMAC as a free constructor, and proves honest-verifies, the RFC-assigned error for every tampering, octet restoration, the 99/100 bound and that every MAC is the HMAC of the declarative RFC digest. Every explored behaviour is replayed with the real API, real messages and ring keys (MACs compared with an independent HMAC of the spec's term), and recorded random exchanges (octets, independent digest inputs) are validated by TLC.",
+    "text": "TLC explores every TSIG exchange of the transcribed ClientTransaction/ClientSequence/ServerTransaction/ServerSequence/ServerError machines against an on-path adversary (17 kinds of tampering at every message), skewed clocks, truncation policies and an independent RFC 8945 responder that leaves answers unsigned (including runs of 99 and 100), with HMAC as a free constructor, and proves honest-verifies, the RFC-assigned error for every tampering, octet restoration, the 99/100 bound and that every MAC is the HMAC of the declarative RFC digest. Every explored behaviour is replayed with the real API, real messages and ring keys (MACs compared with an independent HMAC of the spec's term), and recorded random exchanges (octets, independent digest inputs) are validated by TLC.",
     "note": "Trusted: TLC, ring's HMAC, the transcription of RFC 8945 4.3/5.2/5.3 in Tsig.tla, the harness codec. Symbolic crypto: unknown digest => unknown MAC. A MAC below the policy minimum may be BADTRUNC or FORMERR; the result of the client on an unsigned error answer is compared by class. 'Restored octets' = the message up to its last counted record (the library documents that the stale TSIG octets stay behind the message). The net::client::tsig / middleware wrappers are not driven.",
     "technique": "TLA+ spec (Tsig.tla, MC_Tsig.tla) + TLC exhaustive; spec->impl behaviour replay with independent HMAC; impl->spec trace validation (Trace_Tsig.tla)",
     "design_ref": "DESIGN.md §4 C11",
@@ -100,6 +100,8 @@ def conv(ops, outs, diff, devname):
             allow = None
             if prev is not None and prev["op"] == "adv" and prev["kind"] == "TruncShort":
                 allow = ["BADTRUNC", "FORMERR"] if k == "s_request" else ["BadTrunc", "FormErr"]
+            if prev is not None and prev["op"] == "adv" and prev["kind"] == "ExtendMac":
+                allow = ["BADSIG", "FORMERR"] if k == "s_request" else ["BadSig", "FormErr"]
             if k == "c_answer" and prev is not None and prev["op"] == "s_error" and "macref" not in prev:
                 allow = UNSIGNED_ERR_ALLOW
             if allow and res in allow:
@@ -248,55 +250,24 @@ def validate(ctx, trace, devs, label):
     return ctx.validate_trace("Trace_Tsig", rel, trace, label=label)
 
 
-def explain_trace(ctx, trace, label, minimal):
-    """The trace must be a behaviour of the specification without deviations,
-    or - while deviations are open - of the specification with a subset of the
-    open deviations (the code either has a defect or not, for the whole
+def explain_trace(ctx, trace, label):
+    """The trace must be a behaviour of the specification without deviations
+    or, while deviations are open, of the specification with the open ones (or
+    with a subset of them: the code either has a defect or not, for the whole
     trace).  Returns (accepted, deviations needed, rejection)."""
     import itertools
     ok, res, rej = validate(ctx, trace, [], label)
     if ok:
         return True, [], None
-    best = rej
     opened = sorted(ctx.open_devs)
-    if not opened:
-        return False, [], best
-    hint = getattr(ctx, "c11_hint", None)
-    used = None
-    if hint is not None and hint != opened:
-        # the subset that explained an earlier trace of this run
-        ok, _, _ = validate(ctx, trace, hint, label + "-hint")
-        if ok:
-            return True, hint, None
-    ok, res, rej2 = validate(ctx, trace, opened, label + "-open")
-    if ok:
-        used = opened
-    else:
-        if rej2 and best and rej2.get("matched", 0) > best.get("matched", 0):
-            best = rej2
-        # the code may have only some of the open deviations (repairs under way)
-        for k in range(len(opened) - 1, 0, -1):
-            for sub in itertools.combinations(opened, k):
-                ok, _, _ = validate(ctx, trace, list(sub), label + "-sub")
-                if ok:
-                    used = list(sub)
-                    break
-            if used:
-                break
-    if used is None:
-        return False, [], best
-    ctx.c11_hint = used
-    if minimal and len(used) > 1:
-        # which of them does this trace really need?
-        need = []
-        for d in used:
-            ok, _, _ = validate(ctx, trace, [x for x in used if x != d], label + "-wo")
-            if not ok:
-                need.append(d)
-        ok, _, _ = validate(ctx, trace, need, label + "-need")
-        if ok:
-            used = need
-    return True, used, None
+    for k in range(len(opened), 0, -1):
+        for sub in itertools.combinations(opened, k):
+            ok, _, rej2 = validate(ctx, trace, list(sub), label + "-dev")
+            if ok:
+                return True, list(sub), None
+            if rej2 and rej and rej2.get("matched", 0) > rej.get("matched", 0):
+                rej = rej2
+    return False, [], rej
 
 
 def run(ctx):
@@ -368,7 +339,7 @@ def run(ctx):
                                                        "3000" if thorough else "1200"])
         if rc != 0:
             raise vlib.ToolError("record_tsig failed: " + (out + err)[-800:])
-        ok, used, rej = explain_trace(ctx, tr, "trace-%d" % i, minimal=(thorough and i == 0))
+        ok, used, rej = explain_trace(ctx, tr, "trace-%d" % i)
         ctx.traces += 1
         for d in used:
             ctx.known(d, {"trace": os.path.basename(tr), "seed": ctx.seed * 100 + i})
@@ -397,6 +368,7 @@ def run(ctx):
                 ok2, _, _ = validate(ctx, bad, sorted(used), "trace-selftest-" + what)
                 ctx.selftest("trace with corrupted %s is rejected by Trace_Tsig" % what, not ok2)
     ctx.assume("HMAC is a free constructor: a digest that was never signed has an unknown MAC (unforgeability); equal MACs mean equal digests")
+    ctx.assume("a MAC longer than the algorithm's output may be rejected as FORMERR (RFC 8945 5.2.2.1) or BADSIG (it cannot equal the computed MAC)")
     ctx.assume("a MAC shorter than the receiver's minimum may be rejected as BADTRUNC or FORMERR (RFC 8945 5.2.2.1 distinguishes by the RFC minimum, the library always says BADTRUNC)")
     ctx.assume("restored octets = the message up to its last counted record; the library leaves the stale TSIG octets behind it (Message::remove_last_additional)")
     ctx.assume("error / other-data fields of the 2nd and later answers of a sequence are not covered by the MAC (RFC 8945 5.3.1: timers only); changing them is not tampering with signed octets")
